@@ -46,7 +46,7 @@ TREE_RULE = ('every transition (state, public call, arguments, failing-request i
              'distinct state; after every replayed transition all caller-held roots are deleted and the allocator must be back at balance; non-trivial = the '
              'call changes the heap or the state has a container to query; cases are distinct by construction')
 PLANS['C07'] = {
-    'quick': [tree('O3', 3, 1, 2, '{1}', 'O', 'O'), tree('RS4', 4, 1, 2, '{1}', 'S', 'RS'), tree('RC4', 4, 1, 1, '{1}', 'AO', 'RC')],
+    'quick': [tree('O3', 3, 1, 2, '{1}', 'O', 'O'), tree('RS4', 4, 1, 2, '{1}', 'S', 'RS'), tree('RC4', 4, 1, 1, '{1}', 'AO', 'RC'), tree('OS3', 3, 7, 1, '{1}', 'K', 'OS')],
     'thorough': [tree('O3', 3, 1, 2, '{1}', 'O', 'O'), tree('RS4', 4, 1, 2, '{1}', 'S', 'RS'), tree('R3', 3, 1, 2, '{1}', 'R', 'R'),
                  tree('O3asan', 3, 1, 2, '{1}', 'O', 'O', flavour='asan'), tree('D4', 4, 1, 2, '{1}', 'SA', 'D4')],
     'rule': TREE_RULE, 'assumptions': TREE_ASSUME,
@@ -55,9 +55,9 @@ PLANS['C07'] = {
     'level_note': TREE_NOTE,
 }
 PLANS['C08'] = {
-    'quick': [tree('F3', 3, 1, 2, '{1}', 'R', 'F', maxfail=9), tree('DF5', 5, 1, 1, '{1}', 'SA', 'DF', maxfail=9), tree('SV2', 2, 1, 4, '{1}', 'Str', 'SV', maxfail=3), tree('AN3', 3, 1, 2, '{1}', 'All', 'AN', maxfail=3)],
+    'quick': [tree('F3', 3, 1, 2, '{1}', 'R', 'F', maxfail=9), tree('DF5', 5, 1, 1, '{1}', 'SA', 'DF', maxfail=9), tree('SV2', 2, 1, 4, '{1}', 'Str', 'SV', maxfail=3), tree('AN3', 3, 1, 2, '{1}', 'All', 'AN', maxfail=3), tree('RF4', 4, 1, 1, '{1}', 'AO', 'RF', maxfail=9)],
     'thorough': [tree('F3', 3, 1, 2, '{1}', 'R', 'F', maxfail=9), tree('DF5', 5, 1, 1, '{1}', 'SA', 'DF', maxfail=9),
-                 tree('F3asan', 3, 1, 2, '{1}', 'R', 'F', maxfail=9, flavour='asan')],
+                 tree('F3asan', 3, 1, 2, '{1}', 'R', 'F', maxfail=9, flavour='asan'), tree('RF5', 5, 1, 1, '{1}', 'AO', 'RF', maxfail=9)],
     'rule': TREE_RULE, 'assumptions': TREE_ASSUME,
     'technique': 'TLC enumeration of state x call x index of the refused allocation request in Tree.tla (requests listed in code order), clean-failure action property; every such transition replayed with a failing allocator and judged by "completes normally or fails with state and ledger unchanged"',
     'level_text': 'The fault quantifier (every k) is a nondeterministic parameter of each specification action, so TLC enumerates state x call x k exhaustively within the bounds and checks the clean-failure property on the specification; the same transitions are replayed on the real code with request k refused and the outcome must be the success state or the untouched pre-state with a NULL/false result.',
@@ -86,8 +86,8 @@ def cmp_run(name, tier):
     return {'name': name, 'module': 'MC_Compare', 'mode': 'cmp', 'invariants': ['Reflexive'],
             'constants': {'Tier': '"%s"' % tier, 'Emit': 'TRUE'}, 'timeout': 3000}
 PLANS['C12'] = {
-    'quick': [cmp_run('pairsQ', 'quick'), cmp_run('pairsBig', 'big')],
-    'thorough': [cmp_run('pairsT', 'thorough'), cmp_run('pairsBig', 'big')],
+    'quick': [cmp_run('pairsQ', 'quick'), cmp_run('pairsBig', 'big'), cmp_run('pairsNum', 'nums')],
+    'thorough': [cmp_run('pairsT', 'thorough'), cmp_run('pairsBig', 'big'), cmp_run('pairsNum', 'nums')],
     'rule': 'all ordered pairs (a, b, case flag) over a finite universe of values (all scalars incl. boundary numbers, all containers of width <= 2 '
             'over them with keys a/A/b, nested containers in thorough); non-trivial = every pair (each is compared in both orders and with ownership flags toggled); distinct by construction',
     'assumptions': ['objects have distinct keys (distinct after case folding when comparing case-insensitively), as the property states',
@@ -105,14 +105,14 @@ def parse_run(name, U, units, depth, edits=False, flavour='plain', failinject=Fa
 
 def parse_runs(tier):
     if tier == 'quick':
-        return [parse_run('tok7', 'tok', 7, 4, flavour='limits'), parse_run('nest9', 'nest', 9, 4, flavour='limits'),
+        return [parse_run('tok7', 'tok', 7, 4, flavour='limits'), parse_run('nest9', 'nest', 9, 4, flavour='limits'), parse_run('nest8L2', 'nest', 8, 2, flavour='limits2'), parse_run('deepL2', 'deep', 0, 2, flavour='limits2'), parse_run('deepL4', 'deep', 0, 4, flavour='limits'),
                 parse_run('str3', 'str', 3, 1000), parse_run('num6', 'num', 6, 1000),
                 parse_run('lit5', 'lit', 5, 1000), parse_run('ws4', 'ws', 4, 1000), parse_run('long4', 'long', 4, 1000),
                 parse_run('edit5', 'tok', 5, 1000, edits=True),
                 parse_run('bigq', 'bigq', 0, 1000), parse_run('allbytes', 'allbytes', 0, 1000),
                 parse_run('bigqdef', 'bigq', 0, 1000, extra=' --defaulthooks'), parse_run('strtable', 'strtable', 0, 1000, extra=' --numsweep 600000'),
                 parse_run('longasan', 'long', 4, 1000, flavour='asan'), parse_run('bigqasan', 'bigq', 0, 1000, flavour='asan')]
-    return [parse_run('tok9', 'tok', 9, 4, flavour='limits'), parse_run('nest11', 'nest', 11, 4, flavour='limits'),
+    return [parse_run('tok9', 'tok', 9, 4, flavour='limits'), parse_run('nest11', 'nest', 11, 4, flavour='limits'), parse_run('nest9L2', 'nest', 9, 2, flavour='limits2'), parse_run('deepL2', 'deep', 0, 2, flavour='limits2'), parse_run('deepL4', 'deep', 0, 4, flavour='limits'),
             parse_run('str4', 'str', 4, 1000, timeout=5000), parse_run('num8', 'num', 8, 1000),
             parse_run('lit6', 'lit', 6, 1000), parse_run('ws6', 'ws', 6, 1000), parse_run('long6', 'long', 6, 1000),
             parse_run('edit7', 'tok', 7, 1000, edits=True, timeout=5000), parse_run('tok7plain', 'tok', 7, 1000),
@@ -153,7 +153,7 @@ PRINT_ASSUME = ['number texts come from the catalogue generated with Python\'s c
                 'writes outside a caller buffer are observed with an inaccessible page after it and a canary area before it']
 PRINT_NOTE = 'bounded tree universe and number catalogue; TLC, the driver and the catalogue generator are trusted; a text that differs from the predicted bytes is judged by round trip in the driver and is recorded for validation by the TLA+ grammar'
 def print_plan(what, tech, fail=False, huge=False):
-    return {'quick': [print_run('printQ', 'quick', failinject=fail), print_run('printBig', 'big', failinject=fail), print_run('escTable', 'table')] + ([print_run('printHuge', 'huge')] if huge else []),
+    return {'quick': [print_run('printQ', 'quick', failinject=fail), print_run('printBig', 'big', failinject=fail), print_run('escTable', 'table')] + ([print_run('printHuge', 'huge')] if huge else [print_run('printDeep', 'deep')]),
             'thorough': [print_run('printT', 'thorough', failinject=fail), print_run('escTableFull', 'table', extra=' --fulltable'), print_run('printBig', 'big', failinject=fail), print_run('printHuge', 'huge'), print_run('printQasan', 'quick', flavour='asan', failinject=fail), print_run('printBigasan', 'big', flavour='asan', failinject=fail)],
             'rule': PRINT_RULE, 'assumptions': PRINT_ASSUME, 'technique': tech, 'level_text': what, 'level_note': PRINT_NOTE}
 PLANS['C04'] = print_plan('TLC proves for every tree x format x entry point x initial buffer size x growth strategy that the buffer machine yields Render(v), that Render(v) is an RFC text denoting v (so it parses back to v), and the real library is run over the same product: texts compared byte for byte, re-parsed, re-printed (fixed point), across allocator configurations.',
@@ -175,12 +175,15 @@ PLANS['C08']['thorough'] = PLANS['C08']['thorough'] + [parse_run('tok7fail', 'to
                                                        print_run('printTfail', 'thorough', failinject=True), print_run('printQfailasan', 'quick', flavour='asan', failinject=True)]
 PLANS['C08']['rule'] = TREE_RULE + '; plus every parse of the token universe and every print of the print universe with each single allocation request refused in turn (both allocator configurations for printing)'
 # ------------------------------------------------------------------------------------------------ minify
-def min_run(name, U, maxlen):
-    return {'name': name, 'module': 'MC_Minify', 'mode': 'minify', 'view': 'View', 'invariants': ['InvCase'],
-            'constants': {'U': '"%s"' % U, 'MaxLen': maxlen, 'Emit': 'TRUE', 'MaxDepth': 1000}, 'timeout': 3000}
+def min_run(name, U, maxlen, extra=''):
+    r = {'name': name, 'module': 'MC_Minify', 'mode': 'minify', 'view': 'View', 'invariants': ['InvCase'],
+         'constants': {'U': '"%s"' % U, 'MaxLen': maxlen, 'Emit': 'TRUE', 'MaxDepth': 1000}, 'timeout': 3000}
+    if extra:
+        r['drvargs'] = extra
+    return r
 PLANS['C13'] = {
-    'quick': [min_run('bytes6', 'bytes', 6), min_run('tok4', 'tok', 4), min_run('big', 'big', 0)],
-    'thorough': [min_run('bytes8', 'bytes', 8), min_run('tok5', 'tok', 5), min_run('big', 'big', 0)],
+    'quick': [min_run('bytes6', 'bytes', 6), min_run('tok4', 'tok', 4), min_run('big', 'big', 0), min_run('mtable', 'table', 0)],
+    'thorough': [min_run('bytes8', 'bytes', 8), min_run('tok5', 'tok', 5), min_run('big', 'big', 0), min_run('mtablefull', 'table', 0, extra='--fulltable')],
     'rule': 'ALL strings up to the length bound over {space, newline, /, *, quote, backslash, a} (safety, and value preservation where the string is JSON with comments) and all sequences of tokens '
             '(brackets, comma, number, string literals with escaped quote / escaped backslash / blank / comment opener inside, comment openers and closers incl. /*/); non-trivial = every case; distinct by construction',
     'assumptions': ['accesses beyond the terminator are observed by placing the terminator on the last accessible byte; writes before the buffer by a canary area'],
@@ -192,7 +195,7 @@ PLANS['C13'] = {
 PLANS['C14'] = {
     'quick': [{'name': 'hooks', 'module': 'Hooks', 'mode': 'hooks', 'invariants': ['NoLibc', 'ReallocOnlyDefault', 'Counterpart', 'Routed', 'Restores'],
                'constants': {'MaxHeld': 2, 'Emit': 'TRUE'}, 'timeout': 600},
-              print_run('printQ14', 'quick', failinject=True), parse_run('bigq14', 'bigq', 0, 1000)],
+              print_run('printQ14', 'quick', failinject=True), parse_run('bigq14', 'bigq', 0, 1000), tree('S3h', 3, 1, 2, '{1}', 'S', 'S')],
     'thorough': [{'name': 'hooks', 'module': 'Hooks', 'mode': 'hooks', 'invariants': ['NoLibc', 'ReallocOnlyDefault', 'Counterpart', 'Routed', 'Restores'],
                   'constants': {'MaxHeld': 3, 'Emit': 'TRUE'}, 'timeout': 600},
                  print_run('printT14', 'thorough', failinject=True), tree('O3h', 3, 1, 2, '{1}', 'O', 'O')],
@@ -218,8 +221,9 @@ UTIL_ASSUME = ['objects have distinct keys, as the properties state', 'number va
 UTIL_NOTE = 'bounded document/patch universes; the RFC evaluators of Pointer.tla / Patch.tla are the oracle; TLC and the driver are trusted'
 
 # C07 quantifies over histories of ALL public calls: the utilities must balance the allocator too
-def big_run(name, mode):
-    r = {'name': name, 'module': 'MC_Big', 'mode': 'utils', 'constants': {'Mode': '"%s"' % mode, 'Emit': 'TRUE'}, 'timeout': 3000}
+def big_run(name, mode, circ=10000, limitcases=False, flavour='plain'):
+    r = {'name': name, 'module': 'MC_Big', 'mode': 'utils', 'flavour': flavour, 'timeout': 3000,
+         'constants': {'Mode': '"%s"' % mode, 'Emit': 'TRUE', 'CircLimit': circ, 'WithLimitCases': 'TRUE' if limitcases else 'FALSE'}}
     if mode == 'sort':
         r['drvargs'] = '--record {outdir}/%s.records.ndjson' % name
         r['post'] = 'utilcheck'
@@ -230,8 +234,9 @@ def _c07_utils():
     PLANS['C07']['rule'] += '; plus every patch application, merge and patch generation of the utility universes under the census allocator'
 _c07_utils()
 # beyond the small scopes: deep / wide trees for Duplicate, long member lists for sorting (MC_Big.tla)
-PLANS['C11']['quick'] = PLANS['C11']['quick'] + [big_run('dupbig', 'dup')]
-PLANS['C11']['thorough'] = PLANS['C11']['thorough'] + [big_run('dupbig', 'dup'), {**big_run('dupbigasan', 'dup'), 'flavour': 'asan'}]
+PLANS['C11']['quick'] = PLANS['C11']['quick'] + [big_run('dupbig', 'dup'), big_run('dupL2', 'dup', circ=2, limitcases=True, flavour='limits2')]
+PLANS['C11']['thorough'] = PLANS['C11']['thorough'] + [big_run('dupbig', 'dup'), {**big_run('dupbigasan', 'dup'), 'flavour': 'asan'}, big_run('dupL2', 'dup', circ=2, limitcases=True, flavour='limits2'),
+                                                       big_run('dupLimit', 'dup', limitcases=True)]
 PLANS['C19']['quick'] = PLANS['C19']['quick'] + [big_run('sortbig', 'sort')]
 PLANS['C19']['thorough'] = PLANS['C19']['thorough'] + [big_run('sortbig', 'sort')]
 PLANS['C15'] = {
@@ -340,11 +345,11 @@ def utilcheck(prop, path, outdir, V):
     for m in re.finditer(r'<<"V", (\d+), (TRUE|FALSE)>>', r.stdout):
         n += 1
         if m.group(2) == 'FALSE':
-            i = int(m.group(1)); rec = json.loads(lines[i - 1]); owner = 'C17' if rec['k'] == 'patch' else 'C18'
+            i = int(m.group(1)); rec = json.loads(lines[i - 1]); owner = {'patch': 'C17', 'merge': 'C18', 'sort': 'C19'}.get(rec['k'], 'C17')
             if prop == owner and len(out) < 10:
                 rp = os.path.join(outdir, '%s-record-%d.case' % (owner, i))
                 open(rp, 'w').write(lines[i - 1] + '\n')
-                out.append('VIOLATION property=%s replay=%s :: the generated %s does not transform from into to under the declarative RFC evaluator: %s' % (owner, rp, 'patch' if owner == 'C17' else 'merge patch', lines[i - 1][:240]))
+                out.append(('VIOLATION property=%s replay=%s :: the recorded order after sorting is not a sorted permutation of the members (judged by MC_UtilCheck): %s' % (owner, rp, lines[i - 1][:300])) if owner == 'C19' else 'VIOLATION property=%s replay=%s :: the generated %s does not transform from into to under the declarative RFC evaluator: %s' % (owner, rp, 'patch' if owner == 'C17' else 'merge patch', lines[i - 1][:240]))
     if n != len(lines):
         out.append('check: MACHINERY FAILURE utilcheck judged %d of %d records: %s' % (n, len(lines), r.stdout[-300:]))
     return '\n'.join(out) + ('\n' if out else ''), n
